@@ -202,6 +202,10 @@ class Repo:
         if name == '__init__':
           continue
         m = Module(name, path, os.path.join(d, fn), src)
+        if flatten:
+          from mmsa import decor
+          m.decorators_expanded = decor.expand_module(m.tree)
+          m.branch_defs_merged = decor.merge_branch_defs(m.tree)
         self.modules[name] = m
         for st in m.tree.body:
           if isinstance(st, ast.ClassDef):
